@@ -138,7 +138,7 @@ struct numeric_limits<char> {
 
     static constexpr bool is_iec559  = false;
     static constexpr bool is_bounded = true;
-    static constexpr bool is_modulo  = is_signed;
+    static constexpr bool is_modulo  = not is_signed;
 
     static constexpr bool traps                    = true;
     static constexpr bool tinyness_before          = false;
@@ -241,7 +241,7 @@ struct numeric_limits<char8_t> {
     static constexpr auto max() noexcept -> char8_t { return UCHAR_MAX; }
     static constexpr auto lowest() noexcept -> char8_t { return min(); }
 
-    static constexpr bool is_signed  = CHAR_MIN < 0;
+    static constexpr bool is_signed  = false;
     static constexpr bool is_integer = true;
     static constexpr bool is_exact   = true;
     static constexpr int radix       = 2;
@@ -276,6 +276,81 @@ struct numeric_limits<char8_t> {
     static constexpr bool tinyness_before          = false;
     static constexpr float_round_style round_style = round_toward_zero;
 };
+
+namespace detail {
+
+/// \brief Common implementation for the character types whose width and
+/// signedness are only known to the compiler (wchar_t, char16_t, char32_t).
+template <typename T>
+struct char_numeric_limits {
+    static constexpr bool is_specialized = true;
+
+    static constexpr bool is_signed  = T(-1) < T(0);
+    static constexpr bool is_integer = true;
+    static constexpr bool is_exact   = true;
+    static constexpr int radix       = 2;
+
+    static constexpr int digits       = static_cast<int>(CHAR_BIT * sizeof(T) - static_cast<unsigned>(is_signed));
+    static constexpr int digits10     = digits * 3 / 10;
+    static constexpr int max_digits10 = 0;
+
+    static constexpr auto max() noexcept -> T
+    {
+        if constexpr (is_signed) {
+            return static_cast<T>((((static_cast<T>(1) << (digits - 1)) - 1) << 1) + 1);
+        } else {
+            return static_cast<T>(~static_cast<T>(0));
+        }
+    }
+
+    static constexpr auto min() noexcept -> T
+    {
+        if constexpr (is_signed) {
+            return static_cast<T>(-max() - 1);
+        } else {
+            return T{};
+        }
+    }
+
+    static constexpr auto lowest() noexcept -> T { return min(); }
+    static constexpr auto epsilon() noexcept -> T { return T{}; }
+    static constexpr auto round_error() noexcept -> T { return T{}; }
+
+    static constexpr int min_exponent   = 0;
+    static constexpr int min_exponent10 = 0;
+    static constexpr int max_exponent   = 0;
+    static constexpr int max_exponent10 = 0;
+
+    static constexpr bool has_infinity             = false;
+    static constexpr bool has_quiet_NaN            = false; // NOLINT
+    static constexpr bool has_signaling_NaN        = false; // NOLINT
+    static constexpr bool has_denorm_loss          = false;
+    static constexpr float_denorm_style has_denorm = denorm_absent;
+
+    static constexpr auto infinity() noexcept -> T { return T{}; }
+    static constexpr auto quiet_NaN() noexcept -> T { return T{}; }     // NOLINT
+    static constexpr auto signaling_NaN() noexcept -> T { return T{}; } // NOLINT
+    static constexpr auto denorm_min() noexcept -> T { return T{}; }
+
+    static constexpr bool is_iec559  = false;
+    static constexpr bool is_bounded = true;
+    static constexpr bool is_modulo  = not is_signed;
+
+    static constexpr bool traps                    = true;
+    static constexpr bool tinyness_before          = false;
+    static constexpr float_round_style round_style = round_toward_zero;
+};
+
+} // namespace detail
+
+template <>
+struct numeric_limits<wchar_t> : detail::char_numeric_limits<wchar_t> { };
+
+template <>
+struct numeric_limits<char16_t> : detail::char_numeric_limits<char16_t> { };
+
+template <>
+struct numeric_limits<char32_t> : detail::char_numeric_limits<char32_t> { };
 
 template <>
 struct numeric_limits<short> {
@@ -657,7 +732,7 @@ struct numeric_limits<float> {
 
     static constexpr int digits       = FLT_MANT_DIG;
     static constexpr int digits10     = FLT_DIG;
-    static constexpr int max_digits10 = DECIMAL_DIG;
+    static constexpr int max_digits10 = 2 + FLT_MANT_DIG * 301L / 1000;
 
     static constexpr bool is_signed  = true;
     static constexpr bool is_integer = false;
@@ -680,7 +755,7 @@ struct numeric_limits<float> {
     static constexpr auto infinity() noexcept -> float { return TETL_BUILTIN_HUGE_VALF; }
     static constexpr auto quiet_NaN() noexcept -> float { return TETL_BUILTIN_NANF(""); }      // NOLINT
     static constexpr auto signaling_NaN() noexcept -> float { return TETL_BUILTIN_NANSF(""); } // NOLINT
-    static constexpr auto denorm_min() noexcept -> float { return 0.0F; }
+    static constexpr auto denorm_min() noexcept -> float { return FLT_TRUE_MIN; }
 
     static constexpr bool is_iec559  = true;
     static constexpr bool is_bounded = true;
@@ -688,7 +763,7 @@ struct numeric_limits<float> {
 
     static constexpr bool traps                    = false;
     static constexpr bool tinyness_before          = false;
-    static constexpr float_round_style round_style = round_toward_zero;
+    static constexpr float_round_style round_style = round_to_nearest;
 };
 
 template <>
@@ -701,7 +776,7 @@ struct numeric_limits<double> {
 
     static constexpr int digits       = DBL_MANT_DIG;
     static constexpr int digits10     = DBL_DIG;
-    static constexpr int max_digits10 = DECIMAL_DIG;
+    static constexpr int max_digits10 = 2 + DBL_MANT_DIG * 301L / 1000;
 
     static constexpr bool is_signed  = true;
     static constexpr bool is_integer = false;
@@ -724,7 +799,7 @@ struct numeric_limits<double> {
     static constexpr auto infinity() noexcept -> double { return TETL_BUILTIN_HUGE_VAL; }
     static constexpr auto quiet_NaN() noexcept -> double { return TETL_BUILTIN_NAN(""); }      // NOLINT
     static constexpr auto signaling_NaN() noexcept -> double { return TETL_BUILTIN_NANS(""); } // NOLINT
-    static constexpr auto denorm_min() noexcept -> double { return 0.0; }
+    static constexpr auto denorm_min() noexcept -> double { return DBL_TRUE_MIN; }
 
     static constexpr bool is_iec559  = true;
     static constexpr bool is_bounded = true;
@@ -732,7 +807,7 @@ struct numeric_limits<double> {
 
     static constexpr bool traps                    = false;
     static constexpr bool tinyness_before          = false;
-    static constexpr float_round_style round_style = round_toward_zero;
+    static constexpr float_round_style round_style = round_to_nearest;
 };
 
 template <>
@@ -768,7 +843,7 @@ struct numeric_limits<long double> {
     static constexpr auto infinity() noexcept -> long double { return TETL_BUILTIN_HUGE_VALL; }
     static constexpr auto quiet_NaN() noexcept -> long double { return TETL_BUILTIN_NANL(""); }      // NOLINT
     static constexpr auto signaling_NaN() noexcept -> long double { return TETL_BUILTIN_NANSL(""); } // NOLINT
-    static constexpr auto denorm_min() noexcept -> long double { return 0.0L; }
+    static constexpr auto denorm_min() noexcept -> long double { return LDBL_TRUE_MIN; }
 
     static constexpr bool is_iec559  = true;
     static constexpr bool is_bounded = true;
@@ -776,7 +851,7 @@ struct numeric_limits<long double> {
 
     static constexpr bool traps                    = false;
     static constexpr bool tinyness_before          = false;
-    static constexpr float_round_style round_style = round_toward_zero;
+    static constexpr float_round_style round_style = round_to_nearest;
 };
 
 template <typename T>
